@@ -119,9 +119,10 @@ static int one_of_assoc(const vf_type *T, xc a, xr r, xr c, int user, int usec, 
 }
 int o_scaling(const xs *s, const dmat *A_in, const dmat *B_in, int trans, int equil, vres *r)
 {
+    int factored = (equil == 2);   /* equil==2: Fact=FACTORED, A must come back untouched whatever equed says */
     const vf_type *T = s->T; int n = s->n; char e = s->equed[0];
     if (e != 'N' && e != 'R' && e != 'C' && e != 'B') return wk_fail(r, "equed-letter", "equed='%c' (0x%02x) is not one of N,R,C,B", e, (unsigned char)e);
-    if (!equil && e != 'N') return wk_fail(r, "equed-without-equil", "Equil=NO but equed='%c'", e);
+    if (equil == 0 && e != 'N') return wk_fail(r, "equed-without-equil", "Equil=NO but equed='%c'", e);
     int rowequ = (e == 'R' || e == 'B'), colequ = (e == 'C' || e == 'B');
     for (int i = 0; i < n; i++) {
         if (rowequ) { double v = xs_real(s, s->Rbuf, i); if (!(v > 0) || !isfinite(v)) return wk_fail(r, "scale-factor", "R[%d]=%g not positive finite with equed='%c'", i, v, e); }
@@ -133,6 +134,7 @@ int o_scaling(const xs *s, const dmat *A_in, const dmat *B_in, int trans, int eq
         if (!DZ(A_in, i, j)) continue;
         /* factored orientation: NC: row i scaled by R[i], col j by C[j]; NR (transpose factored): A(i,j) scaled by C[i]*R[j] */
         xr rr = s->stor == 0 ? T->rld(s->Rbuf, i) : T->rld(s->Rbuf, j), cc = s->stor == 0 ? T->rld(s->Cbuf, j) : T->rld(s->Cbuf, i);
+        if (factored) { if (DM(A_in, i, j) != DM(&A1, i, j)) return wk_fail(r, "A-modified-by-solve", "Fact=FACTORED modified A(%d,%d)", i, j); continue; }
         if (!one_of_assoc(T, DM(A_in, i, j), rr, cc, rowequ, colequ, DM(&A1, i, j)))
             return wk_fail(r, "A-scaling", "A(%d,%d): in %Lg%+Lgi out %Lg%+Lgi is not in*R*C restricted to equed='%c' (R=%Lg C=%Lg)", i, j,
                            creall(DM(A_in, i, j)), cimagl(DM(A_in, i, j)), creall(DM(&A1, i, j)), cimagl(DM(&A1, i, j)), e, rr, cc);
